@@ -187,6 +187,12 @@ class SymCtx:
             eng.rules_used.add("TUPLE-EXTENSIONALITY (tuples with equal length and entries are equal)")
         return BoolV(TEQ(ta, tb))
 
+    def index_mark(self, seq, r):
+        """a trigger term naming the r-th element of a sequence of sets (seeded at the integer constants of
+        every goal); for quantifiers over r whose body mentions r only under further binders"""
+        idm = seq.meta.get("idmark")
+        return IntV(idm(Z(r))) if idm is not None else None
+
     def count_below(self, t, v, upto=None):
         """number of positions j (< upto, default: all) of the tuple t with t[j] < v"""
         tau = t.meta.get("tterm")
@@ -461,9 +467,11 @@ def perm_formula(p, g):
     F_, G_ = p.meta.get("fun"), p.meta.get("gfun")
     if F_ is not None and G_ is not None and p.meta.get("ginv") is g:
         key = (F_.get_id(), G_.get_id(), p.n.get_id())
-        if key not in _PF_CACHE:
-            _PF_CACHE[key] = _perm_formula(p, g)
-        return _PF_CACHE[key]  # one AST per sequence: the formula is recognised wherever it is used
+        hit = _PF_CACHE.get(key)
+        if hit is None or not (hit[0].eq(p.n) and hit[1] == F_ and hit[2] == G_):
+            # the entry keeps the symbols alive, so their ids cannot be reused for other symbols
+            hit = _PF_CACHE[key] = (p.n, F_, G_, _perm_formula(p, g))
+        return hit[3]  # one AST per sequence: the formula is recognised wherever it is used
     return _perm_formula(p, g)
 
 
